@@ -159,7 +159,9 @@ async def run_payloads(backend, urls_kind, counters, seed):
     rig.load_config()
     from nostr_relay import auth
 
-    clock = hist.Clock(NOW).install(auth)
+    from nostr_relay import web as _web
+
+    clock = hist.Clock(NOW).install(auth, _web)
     issued = []
     real_token_hex = auth.secrets.token_hex
 
@@ -311,6 +313,25 @@ async def run_payloads(backend, urls_kind, counters, seed):
             if verdict == "ACCEPT" and got != "P1":
                 viols.append({"key": "valid-answer-refused/created_at/fractional-clock", "msg": "[%s/%s] an answer timestamped %.2f s %s the relay's clock was refused"
                               % (backend, urls_kind, abs(age), "before" if age > 0 else "after"), "replay": {"backend": backend, "urls": urls_kind, "label": "fractional-clock"}})
+        # ---- "within ten minutes of NOW": a connection that has been open for a while (the relay's clock, also the
+        # one its connection handler reads, moves on between the challenge and the answer)
+        for held, age, verdict in ((900, 650, "REFUSE"), (900, 601, "REFUSE"), (900, 100, "ACCEPT"), (5000, 4000, "REFUSE"), (5000, -650, "REFUSE"), (5000, -100, "ACCEPT")):
+            clock.now = NOW
+            conn, ch = await fresh_conn("held%d-%d" % (held, age))
+            clock.now = NOW + held
+            ev = ref.make_event(p1, kind=22242, created_at=NOW + held - age, tags=[["relay", url], ["challenge", ch]], content="")
+            await conn.cmd(["AUTH", ev])
+            await rig.quiesce()
+            got = "anon" if conn.exited else await identity_of(rig, conn, p1, 600000 + held + age)
+            clock.now = NOW
+            bump(pc, "must_refuse" if verdict == "REFUSE" else "must_accept")
+            nontrivial.append(h([urls_kind, "held-connection", held, age]))
+            if verdict == "REFUSE" and got != "anon":
+                viols.append({"key": "accepted/created_at/connection-held-open", "msg": "[%s/%s] on a connection opened %d s earlier an answer timestamped %d s %s the relay's clock authenticated the connection"
+                              % (backend, urls_kind, held, abs(age), "before" if age > 0 else "after"), "replay": {"backend": backend, "urls": urls_kind, "label": "held-connection"}})
+            if verdict == "ACCEPT" and got != "P1":
+                viols.append({"key": "valid-answer-refused/created_at/connection-held-open", "msg": "[%s/%s] on a connection opened %d s earlier a fresh answer (%d s %s now) was refused"
+                              % (backend, urls_kind, held, abs(age), "before" if age > 0 else "after"), "replay": {"backend": backend, "urls": urls_kind, "label": "held-connection"}})
         # ---- somebody else's verified id and signature under the victim's name -----------------------
         counters["sequences"] = counters.get("sequences", 0) + 1
         connx, chx = await fresh_conn("x-own")
